@@ -314,10 +314,10 @@ func entryIndex(name string) int {
 func runTok(t *testing.T, c *engine.Check) {
 	T := tokAlphabet(c.Thorough())
 	runTokPart(t, c, "tok", tokSinks, T, nil)
-	// pairs: the small alphabet squared in quick, the quick alphabet squared in thorough
+	// pairs: the small (core) alphabet squared in quick; in thorough core plus all of seal/ cut/ seg/ json/ kind/, squared
 	P := coreTokens(T)
 	if c.Thorough() {
-		P = tokAlphabet(false)
+		P = mediumTokens(tokAlphabet(false))
 	}
 	runTokPart(t, c, "tok-pairs", tokPairSinks, P, P)
 	c.Extra("tok_alphabet", map[string]any{"size": len(T), "pair_alphabet_size": len(P), "sinks": len(tokSinks), "pair_sinks": len(tokPairSinks)})
@@ -375,7 +375,12 @@ func runTokPart(t *testing.T, c *engine.Check, part string, sinks []tokSinkT, T,
 					return engine.Bad("harness", "panic", "C09/harness-panic/"+part, pan)
 				}
 				if os.Getenv("C09_TOKDUMP") != "" {
-					fmt.Fprintf(os.Stderr, "TOKDUMP %s %s %s %s %s %s\n", part, s.name, entries[entry], tn, func() string { if T2 != nil { return sp.Get(v, "tok2") }; return "-" }(), res.Outcome)
+					fmt.Fprintf(os.Stderr, "TOKDUMP %s %s %s %s %s %s\n", part, s.name, entries[entry], tn, func() string {
+						if T2 != nil {
+							return sp.Get(v, "tok2")
+						}
+						return "-"
+					}(), res.Outcome)
 				}
 				if res.Sig != "" {
 					res.Detail = fmt.Sprintf("%s=%q", s.param, clip(tok, 200)) + ifs(T2 != nil, fmt.Sprintf(" %s=%q", s.param2, clip(tok2, 200))) + ": " + res.Detail
